@@ -115,6 +115,29 @@ func buildOverlay(module, scratch string, extra map[string]string) (map[string]s
 	if err := add(filepath.Join(verifDir(), "harness", module)); err != nil {
 		return nil, nil, err
 	}
+	// harnesses over generated data types that are shared with the v2 module
+	// (harness/root/zzh/SHARED lists files of harness/v2/zzh)
+	if module == "root" && len(extra) > 0 {
+		if list, err := os.ReadFile(filepath.Join(verifDir(), "harness", "root", "zzh", "SHARED")); err == nil {
+			for _, line := range strings.Split(string(list), "\n") {
+				name := strings.TrimSpace(line)
+				if name == "" || strings.HasPrefix(name, "#") {
+					continue
+				}
+				b, err := os.ReadFile(filepath.Join(verifDir(), "harness", "v2", "zzh", name))
+				if err != nil {
+					return nil, nil, fmt.Errorf("shared harness %s: %v", name, err)
+				}
+				real := filepath.Join(scratch, "ov", module, "zzh", "zz_verif_"+name)
+				os.MkdirAll(filepath.Dir(real), 0o755)
+				if err := os.WriteFile(real, []byte(subst(string(b))), 0o644); err != nil {
+					return nil, nil, err
+				}
+				ov[filepath.Join(mdir, "zzh", "zz_verif_"+name)] = real
+				pkgSet["zzh"] = true
+			}
+		}
+	}
 	// zzverif package (and zzsync, the instrumented stand-in for package sync)
 	for _, rel := range []string{"zzverif/verif.go", "zzverif/zzsync/zzsync.go"} {
 		vb, err := os.ReadFile(filepath.Join(verifDir(), "harness", rel))
